@@ -18,10 +18,10 @@ _EFF = {}
 
 
 def eff(ix):
-    if id(ix) not in _EFF:
+    if ix.uid not in _EFF:
         _EFF.clear()
-        _EFF[id(ix)] = effects.Effects(ix)
-    return _EFF[id(ix)]
+        _EFF[ix.uid] = effects.Effects(ix)
+    return _EFF[ix.uid]
 
 
 def board_fields(ix):
